@@ -1,8 +1,9 @@
 CONFIG = {
     "id": "C09",
-    "coq_targets": ["Model/SweepCheck.v", "Props/C09.v", "Model/SimCheck.v"],
+    "coq_targets": ["Model/SweepCheck.v", "Model/SimSkeleton.v", "Gen/RunSkeleton.v", "Model/SimSkeletonInterp.v", "Proofs/RunSkeletonProofs.v",
+                    "Proofs/SimActiveFrame.v", "Proofs/RunSkeletonInterpProofs.v", "Props/C09.v", "Model/SimCheck.v"],
     "prop_files": ["Props/C09.v"],
-    "gen": ["Globals"],
+    "gen": ["Globals", "RunSkeleton"],
     "components": [{
         "name": "sim", "modules": ["Base.NumOps", "Model.Turn", "Model.Sim", "Model.SimCheck"],
         "check": "check_case", "monitor": "monitor_c09", "model_out": "monitor_detail",
@@ -26,7 +27,9 @@ CONFIG = {
             "ticks, LimboWaitHeal verdict), decision sequences of the "
             "script callbacks incl. invalid targets and ult requests, cycle limit 0-4, insert budget 0-12; distinct = "
             "distinct input term",
-    "trusted": ["hits of harness content are 'plain' (no DEF/RES/stance/shield/crit), so a hit's total is its flat damage; the "
+    "trusted": ["run loop, TRANSLATED from the Go source on every run (go2coq RunSkeleton -> Gen/RunSkeleton.v; types and pinned table Model/SimSkeleton.v; interpreter Model/SimSkeletonInterp.v; Proofs/RunSkeletonProofs.v, Proofs/RunSkeletonInterpProofs.v; theorem C09_run_skeleton_is_the_source): EVERY statement of EVERY function of pkg/simulation/run.go, action.go and death.go as an ordered step (emit with payload, call, bind, assignment, if / for / range / switch with the guard as normalised source text, return / tail call with the next state), plus the values of the integer constants they name; no statement is skipped, a statement or a nested effectful call outside the recognised shapes makes the translator fail closed (only listed effect-free queries may be nested in an expression). PINNED (table = hand-written expected table, reflexivity): all 22 functions - Run, initialize, startBattle, engage, beginTurn, phase1, action, phase2, endTurn, exitCheck, InsertAction, InsertAbility, InsertUlt, ultCheck, executeQueue, executeAction, executeUlt, executeInsert, clearActionTargets, deathCheck, kill, deathEvent. INTERPRETED (interpretation of the generated steps over the model's own state, outcome type and functions proved equal to the model for all cfg / fuel / states): engage, beginTurn, phase1, action, phase2, endTurn, and their chaining = Sim.one_turn (equal outcomes; equal traces on an error outcome), phase2+endTurn = Sim.phase2, engage = the battle-start drain of Sim.start",
+                'run loop, still HAND-WRITTEN / trusted under the translator tie: the denotation tables of Model/SimSkeletonInterp.v (which model function a call / event / guard text stands for: sim.deathCheck -> death_check, sim.Modifier.Tick(.., ModifierPhase1/2) -> run_slot LPhase1/LPhase2, sim.executeQueue -> execute_queue with phase < info.ActionEnd decided on the generated constants, sim.exitCheck -> exit_check, sim.executeAction -> execute_action, Turn.StartTurn / ResetTurn -> Model/Turn.v) and its no-counterpart list (the TurnStart and ActionEnd modifier ticks, createSnapshot, the enemy stance reset of phase1: identity in the model); the BODIES of exitCheck, executeQueue, ultCheck, executeAction / executeUlt / executeInsert, deathCheck / kill / deathEvent, initialize, startBattle, Run are pinned only (their model counterparts exit_check, drain, ult_check, execute_action, death_check / announce, start are shaped differently: fuel recursion, filters instead of index loops, units built in one step) and stay tied by correspondence; everything the called services do (turn manager, attribute service, modifier manager, queue, event system, character / enemy managers, IsValid / IsCharacter / onField / CanUseUlt / createSnapshot) is outside the three files; event payload texts are pinned but not interpreted',
+                "hits of harness content are 'plain' (no DEF/RES/stance/shield/crit), so a hit's total is its flat damage; the "
                 "damage formula itself is C04",
                 "listener scripts never open or close an attack bracket (legal use of the API, enforced by the model as a "
                 "distinct outcome and respected by the generator); they may add hits to an attack that is open",
@@ -34,9 +37,9 @@ CONFIG = {
     "assumptions": ["content uses the engine API legally: an attack bracket is opened (first qualified attack) and closed (EndAttack) only from action / ult / insert bodies"],
     "manifest": {
         "level_text": "Kernel-checked theorems about the model, for every configuration, content script set, decision sequence and run length (run level = about every terminated run `start cfg fuel = Stop s`): (a) the two totals are the left-to-right binary64 sums, from 0, of the total damage of the hits whose defender is an enemy / a character of the battle, over a list that is a permutation of the logged hits (the order in which the statistics subscriber saw them: it runs before the content's HitEnd listener, the log line is written after it, so nested hits are summed in a different order than logged; hits on ids that are not units count on neither side); without a content HitEnd listener the sums are over the log order itself; (b) the two per-cycle series always have equal length >= 1; when the clock's cycle index never decreases from one turn start to the next (decidable on the trace) both end at the totals, and when moreover no hit total is negative or NaN both are non-decreasing in the binary64 order (float-level proof: x <= x + d for x, d >= 0); (c) the total action value is the clock of the last turn start and is carried by the final Termination; the run continues past an exit check iff both sides have living units and floor(clock/100) < limit, and the result is, unchanged, the outcome of the first exit check that fails (state + the one Termination, reason loss, else win, else timeout); for configurations that describe characters first the Termination's reason agrees with the deaths announced in the trace (`reason_ok`), and under the four assumptions (characters first, no HitEnd listener, monotone cycle index, non-negative hits) the whole trace monitor `monitor_c09` accepts every terminated model run. Not proved: that the cycle index is monotone for every configuration (it is for positive speeds at the level of the reals, C02); per-function facts (exit decision, hit bookkeeping) as before.",
-        "level_note": "Coq kernel; hand-written model Model/Sim.v tied by whole-trace correspondence; content is scripted harness "
+        "level_note": "go2coq RunSkeleton translator (run.go, action.go, death.go -> step table) + pinned table + interpreter Model/SimSkeletonInterp.v + kernel-checked equality with Sim.one_turn; " "Coq kernel; hand-written model Model/Sim.v tied by whole-trace correspondence; content is scripted harness "
                       "content registered through the exported Register functions; internal/* content is not modelled.",
-        "technique": 'Coq proofs over whole runs (frame principle over all content scripts with hit completion as one step, relation composed over queue, turns and start; binary64 order facts via Flocq) + whole-trace correspondence + result monitor',
+        "technique": "source-to-Coq translation of the run loop into a step table, pinned and interpreted (state functions of a turn = Sim.one_turn) + " 'Coq proofs over whole runs (frame principle over all content scripts with hit completion as one step, relation composed over queue, turns and start; binary64 order facts via Flocq) + whole-trace correspondence + result monitor',
         "design_ref": "DESIGN.md section 7, C09",
     },
 }
